@@ -550,9 +550,10 @@ func c01OpRun3(c *Case, rng *Rng, binds []c01Bind3, opt c01Opt3, x0 []c01Ev, inj
 			}
 			all = false
 		}
-		if !done || busy || !all || len(ex) != len(execs) {
+		changed := len(ex) != len(execs)
+		execs = ex // always the latest reading: exit codes and end times of runs that were still going on
+		if !done || busy || !all || changed {
 			stable = 0
-			execs = ex
 			continue
 		}
 		stable++
